@@ -91,7 +91,16 @@ func H_C17_pure_encode() {
 		ms = MapSeq(mj)
 	}
 	mark := vMark(m, map[string]interface{}(ms))
-	switch vChoose(7) {
+	switch vChoose(8) {
+	case 6: // a hand-built MapSeq: a root list whose sequence numbers do not ascend
+		hb := MapSeq{"r": []interface{}{
+			map[string]interface{}{"#seq": 1, "#text": "b"},
+			map[string]interface{}{"#seq": 0, "#text": k},
+		}}
+		mk3 := vMark(map[string]interface{}(hb))
+		_, _ = hb.Xml()
+		_, _ = hb.XmlIndent("", " ")
+		vAssertUnchangedSince(mk3, "purity: the sequence encoder leaves a list it emits in sequence order as it was")
 	case 5: // gob encoder (encoding/gob itself is a contract stub), also on json.Number values
 		_, _ = Map(m).Gob()
 		JsonUseNumber = true
